@@ -3,6 +3,7 @@
 from __future__ import annotations
 
 import os
+import pathlib
 import pickle
 import shutil
 import sys
@@ -190,9 +191,10 @@ def one(rec, hub, seed, tier, i, tmpdir):
         pass
     # ---- pickle -------------------------------------------------------------------------
     ppath = os.path.join(tmpdir, f"exp_{i}.pickle")
+    as_path = (lambda q: pathlib.Path(q)) if i % 4 == 1 else (lambda q: q)  # destinations as text or as pathlib.Path objects
     audit_on()
     try:
-        ex.export_mfa_to_pickle(mfa, ppath)
+        ex.export_mfa_to_pickle(mfa, as_path(ppath))
         err = None
     except Exception as e:
         err = e
@@ -237,7 +239,7 @@ def one(rec, hub, seed, tier, i, tmpdir):
             rec.skip(M, f"colliding system could not be built: {type(e).__name__}")
     audit_on()
     try:
-        ex.export_mfa_flows_to_csv(mfa, fdir)
+        ex.export_mfa_flows_to_csv(mfa, as_path(fdir))
         err = None
     except Exception as e:
         err = e
@@ -254,7 +256,7 @@ def one(rec, hub, seed, tier, i, tmpdir):
         sdir = os.path.join(tmpdir, f"stocks_{i}_{int(with_io)}")
         audit_on()
         try:
-            ex.export_mfa_stocks_to_csv(mfa, sdir, with_in_and_out=with_io)
+            ex.export_mfa_stocks_to_csv(mfa, as_path(sdir), with_in_and_out=with_io)
             err = None
         except Exception as e:
             err = e
